@@ -41,6 +41,17 @@ CHECKS = {
                      'validator callables, the depth/element limit guards are well-formed with the documented threshold, and the depth '
                      'limit is compared with the recursion budget. Termination and implicit interpreter exceptions are not decided.',
                 note=NOTE),
+    'C12': dict(ref='DESIGN.md §2 C12', technique='who-may-call over import-resolved callees, CFG must-pass-through, per-mode partial evaluation '
+                                                    'of the decision chain, reaching definitions (separator-terminated prefix)',
+                text='Partial: only XMLResource.open (plus reviewed write-mode sites) opens files/URLs; access_control precedes the first '
+                     'open on every path; the blocking condition per allow mode equals the specification table; sandbox containment is '
+                     'segment-aware; allow/defuse reach every sub-resource construction. Confinement for every spelling of a URL is not decided.',
+                note=NOTE),
+    'C13': dict(ref='DESIGN.md §2 C13', technique='handler table, handler-coverage over the exception hierarchy, CFG must-pass-through, per-mode partial '
+                                                    'evaluation, who-may-parse over import-resolved callees',
+                text='Partial: the three refusing expat handlers are installed unconditionally, the refusal cannot be swallowed on the way to '
+                     'the caller, every defused open passes the scanner, is_defused() equals the specification per mode, XML is parsed only '
+                     'by the loaders/scanner. That expat invokes the handlers for every payload is trusted, not decided.', note=NOTE),
 }
 NOT_APPLICABLE = {
     'C06': 'equivalence of lazy and eager traversals quantifies over runtime chunkings of runtime trees; no structural necessary '
@@ -50,6 +61,6 @@ NOT_APPLICABLE = {
     'C16': 'set semantics of hand-written case splits over namespace constraints can only be decided by evaluating them over the '
            'enumerated domain (execution); shape rules are blind to the defect quoted in the property',
 }
-for _p in ( 'C08', 'C09', 'C10', 'C12', 'C13', 'C14', 'C17', 'C18', 'C19', 'C20'):
+for _p in ( 'C08', 'C09', 'C10', 'C14', 'C17', 'C18', 'C19', 'C20'):
     NOT_APPLICABLE.setdefault(_p, PENDING)
-FIX_COMMITS = ['0d39fae', 'ee7fbf0', 'ec74ff3', '0116491', '72bb2c6', '4feb9ab']
+FIX_COMMITS = ['0d39fae', 'ee7fbf0', 'ec74ff3', '0116491', '72bb2c6', '4feb9ab', '7a4e62d']
